@@ -55,7 +55,7 @@ fn col_domain(c: &str, reduced: bool) -> Vec<(Option<String>, RVal)> {
 
 const COLS: [&str; 10] = ["i", "j", "r", "s", "t", "u", "b", "a", "ts", "iv"];
 
-fn leaves() -> Vec<E> {
+pub fn leaves() -> Vec<E> {
     let mut v: Vec<E> = COLS.iter().map(|c| E::Col(c.to_string())).collect();
     v.extend(vec![
         E::Lit(Lit::Null),
@@ -76,7 +76,7 @@ fn leaves() -> Vec<E> {
     v
 }
 
-fn small_leaves() -> Vec<E> {
+pub fn small_leaves() -> Vec<E> {
     vec![E::Col("i".into()), E::Col("r".into()), E::Col("t".into()), E::Col("b".into()), E::Lit(Lit::Int(1)), E::Lit(Lit::Null), E::Lit(Lit::Text("a".into())), E::Lit(Lit::Bool(true))]
 }
 
@@ -92,7 +92,7 @@ const CAST_TYPES: [&str; 6] = ["int", "real", "text", "boolean", "timestamp", "i
 const EXTRACT_PARTS: [&str; 7] = ["year", "month", "day", "hour", "minute", "second", "epoch"];
 
 /// every node kind over the given leaves
-fn d1(ls: &[E], subset: &[E]) -> Vec<E> {
+pub fn d1(ls: &[E], subset: &[E]) -> Vec<E> {
     let mut out = Vec::new();
     for x in ls {
         for y in ls {
@@ -172,7 +172,7 @@ fn d2(base: &[E], ls: &[E]) -> Vec<(E, Vec<E>)> {
 }
 
 /// rows (json line, reference row) over the product of the domains of the mentioned columns
-fn rows_for(cols: &[String], reduced: bool) -> Vec<(String, Row)> {
+pub fn rows_for(cols: &[String], reduced: bool) -> Vec<(String, Row)> {
     let doms: Vec<Vec<(Option<String>, RVal)>> = cols.iter().map(|c| col_domain(c, reduced)).collect();
     let mut out = Vec::new();
     let mut idx = vec![0usize; cols.len()];
